@@ -122,9 +122,12 @@ class ORSet:
 
     def to_dict(self) -> dict:
         """Serialize to a plain dict."""
-        entries = {}
-        for element, tags in self._entries.items():
-            entries[str(element)] = [list(tag) for tag in sorted(tags)]
+        # A list of [element, tags] pairs rather than a dict keyed by str(element),
+        # so that non-string elements keep their type through a round trip.
+        entries = [
+            [element, [list(tag) for tag in sorted(tags)]]
+            for element, tags in self._entries.items()
+        ]
         return {
             "type": "ORSet",
             "node_id": self._node_id,
@@ -142,7 +145,9 @@ class ORSet:
         """
         s = cls(data["node_id"])
         s._seq = data["seq"]
-        for element, tags in data["entries"].items():
+        entries = data["entries"]
+        pairs = entries.items() if isinstance(entries, dict) else entries
+        for element, tags in pairs:
             s._entries[element] = {tuple(tag) for tag in tags}
         s._tombstones = {tuple(tag) for tag in data.get("tombstones", [])}
         return s
